@@ -143,7 +143,9 @@ class InterpBase:
 
     def class_of(self, v, label="class"):
         """Concrete class id of a ref value (case split if several are feasible)."""
-        r = Val.r(v)
+        r = z3.simplify(Val.r(v))
+        if z3.is_int_value(r) and r.as_long() in self.st.reg_class:
+            return self.st.reg_class[r.as_long()]
         t = z3.simplify(z3.Select(self.st.typeof, r))
         if z3.is_int_value(t):
             return t.as_long()
@@ -222,6 +224,8 @@ class InterpBase:
 
     def exc_isa(self, exc, cname_or_id):
         k = self.table.id(cname_or_id) if isinstance(cname_or_id, str) else cname_or_id
+        if k == self.table.id("BaseException"):
+            return z3.BoolVal(True)       # everything that can be raised is a BaseException
         c = self.exc_class(exc)
         if z3.is_int_value(c):
             return z3.BoolVal(self.table.issub(c.as_long(), k)) if c.as_long() in self.table.names else IsSub(c, z3.IntVal(k))
@@ -421,10 +425,15 @@ class InterpBase:
         v = z3.simplify(v)
         if not self.ctx.branch(Val.is_VRef(v), "str-arg-is-object"):
             return self.str_of(v)
-        if self.not_agent_object(v):
+        ccid = z3.simplify(z3.Select(self.st.typeof, Val.r(v)))
+        if z3.is_int_value(ccid):
+            cid = ccid.as_long()
+        elif self.not_agent_object(v):
             cid = None
         else:
             cid = self.class_of(v, "str-arg-class")
+        if cid == self.table.id("UUID"):
+            return Val.s(self.st.get_field(Val.r(v), "$str"))       # str(uuid) is total (trusted)
         if self.is_host_class(cid) or cid in self._containers():
             # containers call repr() of their elements, which may be host objects
             res = self.host_op(what, v, node)
